@@ -525,6 +525,9 @@ impl FromStr for Data {
             return Ok(Self::Uci(mv));
         }
 
+        if !data.is_ascii() {
+            return Err(RawParseError::Syntax);
+        }
         let bytes = data.as_bytes();
 
         if let first @ (b'N' | b'B' | b'R' | b'Q' | b'K') = bytes[0] {
@@ -537,6 +540,9 @@ impl FromStr for Data {
                 _ => unreachable!(),
             };
             let bytes = &bytes[1..];
+            if bytes.len() < 2 {
+                return Err(RawParseError::Syntax);
+            }
             let (bytes, dst_bytes) = bytes.split_at(bytes.len() - 2);
             let dst = Coord::from_str(str::from_utf8(dst_bytes).unwrap())?;
             let (file, bytes) = match bytes.first() {
